@@ -1398,6 +1398,16 @@ class ZoneFn:
                         if kt is not None and path == ('1',):
                             return tsub(base, kt)
             r = self.za.call_retlen(self, t, path)
+            if r is None:
+                # a piece of an argument handed back by a local helper: end - start of that piece
+                from flow import local_target
+                tgt = local_target(self.za.eng, t)
+                if tgt is not None and tgt != self.body.path:
+                    rs = ((self.za.summary(tgt) or {}).get('retslice') or {}).get(tuple(path))
+                    if rs is not None and rs[3] is not None:
+                        st2, en2 = self.za.subst(self, t, rs[2], tgt=tgt), self.za.subst(self, t, rs[3], tgt=tgt)
+                        if st2 is not None and en2 is not None:
+                            r = tsub(en2, st2)
             if r is None and l not in self.mut_roots and ty.startswith(('std::vec::Vec<', '&[', '[')):
                 sym = 'len:_%d%s' % (l, ''.join('.' + x for x in path))
                 self.sym_bound.setdefault(sym, IMAX // elem_size_of(ty))
